@@ -27,7 +27,8 @@ RULE = ("metamorphic: a grammar program (C01's space, all operation groups) is "
         "gets one of {none, ImplStored, ImplInlined, ImplSubstitution}, one of "
         "{none, Named(fresh unique name), PrefixNamed(shared prefix)}, and any "
         "of {user tag, second user tag type, unique user tag, axis tag on a "
-        "drawn axis, tag on every reduction descriptor}; inputs get user / "
+        "drawn axis, tag on every reduction descriptor}; index arrays without "
+        "negative entries may get AssumeNonNegative; inputs get user / "
         "axis / PrefixNamed tags and (rarely) implementation tags.  Oracle: "
         "the tagged graph has the same output names, shapes and dtypes; its "
         "generation and compilation succeed whenever the untagged program's "
@@ -56,8 +57,21 @@ def plan(tier: str) -> dict:
 IMPL = (None, ["ImplStored"], ["ImplInlined"], ["ImplSubstitution"])
 
 
+def index_arrays(spec) -> set[int]:
+    """nodes used as index arrays of an advanced-indexing operation"""
+    res = set()
+    for n in spec["nodes"]:
+        if n["op"] == "index":
+            for it in n.get("p", {}).get("idx", []):
+                if it[0] == "arr":
+                    a = n["args"][it[1]]
+                    if a[0] == "n":
+                        res.add(a[1])
+    return res
+
+
 @st.composite
-def assignments(draw, spec):
+def assignments(draw, spec, nonneg=frozenset()):
     live = sorted(reachable(spec))
     out_idx = {i for _, i in spec["outputs"]}
     tags = {}
@@ -88,6 +102,9 @@ def assignments(draw, spec):
             ts.append(["Axis", draw(st.integers(0, 3)), f"ax{i % 2}"])
         if k == 4 or k == 7:
             ts.append(["Redn", f"r{i % 2}"])
+        if i in nonneg and draw(st.booleans()):
+            # a truthful assumption about an index array changes nothing
+            ts.append(["AssumeNonNegative"])
         if ts:
             tags[str(i)] = ts
     return tags
@@ -199,8 +216,13 @@ def run_shard(shard: int, nshards: int, seed: int, tier: str) -> ShardResult:
             except Skip as s:
                 res.skip(str(s)[:70])
                 return
+            ref = base[1]
+            nonneg = frozenset(
+                i for i in index_arrays(spec)
+                if ref[i] is not None and isinstance(ref[i].a, np.ndarray)
+                and ref[i].a.dtype.kind in "iu" and (ref[i].a >= 0).all())
             for _ in range(pl["assignments"]):
-                tags = data.draw(assignments(spec))
+                tags = data.draw(assignments(spec, nonneg))
                 f, info = tagged_oracle(spec, tags, base)
                 if info.get("rejected"):
                     res.count("assignment_rejected:" + info["rejected"])
